@@ -113,6 +113,7 @@ type Result struct {
 
 // Run executes one plan.
 type Run struct {
+	inSetup  bool  // setup requests travel path style
 	reqCount int64 // requests sent so far (decides the addressing style under HostBase)
 	Plan     *Plan
 	Prop     string
@@ -255,8 +256,18 @@ func Execute(p *Plan, scratch string) (res *Result) {
 		r.hist = newHistory()
 	}
 	// setup runs before the simulation (no concurrency, no faults)
-	if err := r.setup(); err != nil {
+	r.inSetup = true
+	err = r.setup()
+	r.inSetup = false
+	if err != nil && !r.stopped() {
 		res.Infra = "setup: " + err.Error()
+		return
+	}
+	if r.stopped() {
+		// the server's answer to a set-up request is itself a divergence
+		env.Close()
+		res.Violation, res.Foreign, res.Log = r.viol, r.foreign, r.log
+		res.LogHash = hex.EncodeToString(r.logHash[:8])
 		return
 	}
 	r.left = len(p.Clients)
